@@ -16,6 +16,7 @@ Lemma valid_dims : forall t k e f, valid t k e f = true ->
   In t transports /\ In k kinds /\ In e exits /\ In f features.
 Proof.
   intros t k e f H. unfold valid in H.
+  apply andb_true_iff in H. destruct H as [H _].
   apply andb_true_iff in H. destruct H as [H He].
   apply andb_true_iff in H. destruct H as [H Hf].
   apply andb_true_iff in H. destruct H as [Ht Hk].
@@ -37,7 +38,8 @@ Proof.
     { apply orb_true_iff in F1. destruct F1 as [F1|F1]; apply N.eqb_eq in F1; subst; unfold features; simpl; intuition. }
     destruct (f =? fHdr) eqn:F2. { apply N.eqb_eq in F2. subst. unfold features. simpl. intuition. }
     destruct (f =? fExtOut) eqn:F3. { apply N.eqb_eq in F3. subst. unfold features. simpl. intuition. }
-    destruct (f =? fExtIn) eqn:F4. { apply N.eqb_eq in F4. subst. unfold features. simpl. intuition. }
+    destruct (mem f [fExtIn; fTail; fTwoStreams; fMulti; fRedirect; fNoData]) eqn:F4.
+    { apply mem_In in F4. unfold features. simpl in F4 |- *. intuition. }
     destruct (f =? fShm) eqn:F5. { apply N.eqb_eq in F5. subst. unfold features. simpl. intuition. }
     destruct ((f =? fCast) || (f =? fExtCast)) eqn:F6.
     { apply orb_true_iff in F6. destruct F6 as [F6|F6]; apply N.eqb_eq in F6; subst; unfold features; simpl; intuition. }
@@ -114,7 +116,7 @@ Proof.
   destruct (has_exit_turn t k e f); cbn [map]; [rewrite H3, collect_cons_nil|]; reflexivity.
 Qed.
 
-(* finite sweeps over the 470-odd classes *)
+(* finite sweeps over the 675 classes *)
 Lemma repaired_all_balanced : forallb (class_balanced Repaired) all_classes = true.
 Proof. vm_compute. reflexivity. Qed.
 
